@@ -217,6 +217,9 @@ def solve_and_check(res, spec, want, ta=25.0, solve_kw=None):
             return s, None
         res.v(("%s.exception" % want[0], "ValueError"), str(e))
         return s, None
+    except Exception as e:  # any other exception type out of solve() on a legally built system is a violation, not a harness problem
+        res.v(("%s.exception" % want[0], type(e).__name__), str(e)[:200])
+        return s, None
     obs = observe(df)
     res.stats["traces"] += 1
     res.classes.add("solved")
